@@ -1,3 +1,122 @@
+//! C04 — every even shard size works and symbol slots never interact.
+//! For every even size in the bound: exact output lengths; slot-wise self differential (slot s of
+//! every output == coding that slot alone as 2-byte shards); G*data by gfref; decode patterns.
+//! The working space is soiled, so the unused lanes of a short final block hold stale bytes.
+use crate::core::*;
+use crate::json::J;
+use crate::kv::*;
 use crate::report::*;
-pub fn run(_ctx: &Ctx, rep: &mut Report) { rep.machinery_errors.push("not implemented".into()); }
-pub fn replay(_ctx: &Ctx, _case: &str) -> Result<(), String> { Err("not implemented".into()) }
+use crate::rt::*;
+
+fn check_size(refm: &RefModel, eng: &str, codec: &str, k: usize, r: usize, bytes: usize, soil: u64, seed: u64) -> Result<u64, (String, String)> {
+    let mut n = 0u64;
+    let g = build_group(eng, codec, k, r, &format!("dense:{bytes}"), soil, seed).map_err(|e| (format!("encode Ok with {r} shards of {bytes} bytes"), e))?;
+    // (iii) G * data
+    let kind = codec_kind(codec);
+    let want = refm.encode(spec_is_high(kind, k, r), k, r, &g.originals);
+    for j in 0..r {
+        if g.recovery[j] != want[j] {
+            let pos = g.recovery[j].iter().zip(&want[j]).position(|(a, b)| a != b);
+            return Err((format!("recovery[{j}] = G*data = {}", hex(&want[j])), format!("{} (first diff at byte {pos:?})", hex(&g.recovery[j]))));
+        }
+        n += 1;
+    }
+    // (ii) slot differential
+    let osym: Vec<Vec<u16>> = g.originals.iter().map(|o| gfref::shard_to_symbols(o)).collect();
+    let rsym: Vec<Vec<u16>> = g.recovery.iter().map(|o| gfref::shard_to_symbols(o)).collect();
+    let slots = bytes / 2;
+    // every slot for sizes up to 3 blocks, else the block edges and the tail
+    let pick: Vec<usize> = if slots <= 100 { (0..slots).collect() } else { (0..slots).filter(|s| s % 32 < 2 || s % 32 > 29 || *s >= slots - 34).collect() };
+    for &s in &pick {
+        let tiny: Vec<Vec<u8>> = osym.iter().map(|o| vec![o[s] as u8, (o[s] >> 8) as u8]).collect();
+        let rec = real_encode(eng, codec, k, r, 2, &tiny, 0).map_err(|e| ("2-byte encode Ok".to_string(), e))?;
+        for j in 0..r {
+            let v = rec[j][0] as u16 | (rec[j][1] as u16) << 8;
+            n += 1;
+            if v != rsym[j][s] {
+                return Err((format!("slot {s} of recovery[{j}] == the same slot coded alone as 2-byte shards = {v:#06x}"), format!("{:#06x}", rsym[j][s])));
+            }
+        }
+    }
+    // decode patterns
+    for (name, og, rg) in crate::c01::families(k, r).into_iter().filter(|(n, _, _)| n == "maxloss-first" || n == "maxloss-last" || n == "every-other") {
+        let m = g.decode(&og, &rg, None).map_err(|e| (format!("decode Ok ({name})"), e))?;
+        g.check_restored(&og, &m).map_err(|e| (format!("restored == missing originals, each of {bytes} bytes ({name})"), e))?;
+        n += 1;
+    }
+    Ok(n)
+}
+
+fn run_case(refm: &RefModel, kv: &Kv) -> Result<u64, (String, String)> {
+    check_size(refm, kv.str("eng"), kv.str("codec"), kv.usize("k"), kv.usize("r"), kv.usize("bytes"), kv.u64("soil"), kv.u64("seed"))
+}
+
+pub fn replay(_ctx: &Ctx, case: &str) -> Result<(), String> {
+    let kv = Kv::parse(case)?;
+    run_case(&RefModel::new(), &kv).map(|_| ()).map_err(|(e, o)| format!("expected {e}; observed {o}"))
+}
+
+pub fn run(ctx: &Ctx, rep: &mut Report) {
+    let refm = RefModel::new();
+    let seed = ctx.seed;
+    let soil = seed | 1;
+    rep.rule = "case = (engine, codec, (k,r), even shard size): lengths; every slot (block edges + tail above 100 slots) re-coded alone as 2-byte shards must equal that slot of the full-size output; output == G*data by gfref with the documented byte placement; decode of max-loss/every-other patterns; non-trivial = size not a multiple of 64 (short final block) ; distinct by (engine,codec,k,r,size)".into();
+    rep.assume("working space soiled through the public API for every full-size encode and decode (stale bytes in unused lanes)");
+    let (smax, kmax) = if ctx.thorough() { (260usize, 5usize) } else { (132, 3) };
+    let mut sizes: Vec<usize> = (1..=smax / 2).map(|x| 2 * x).collect();
+    if ctx.thorough() {
+        sizes.extend([1022, 1024, 1026, 4094]);
+    }
+    let mut cfgs: Vec<(usize, usize)> = Vec::new();
+    for k in 1..=kmax {
+        for r in 1..=kmax {
+            cfgs.push((k, r));
+        }
+    }
+    if ctx.thorough() {
+        cfgs.push((33, 3));
+        cfgs.push((3, 33));
+    }
+    let mut cases = Vec::new();
+    for &eng in &engines_all() {
+        for codec in if eng == "default" { vec!["high", "low", "def", "rs", "oneshot"] } else { vec!["high", "low", "def"] } {
+            for &(k, r) in &cfgs {
+                for &b in &sizes {
+                    // thorough: slow engines on a fixed half of the sizes for the bigger configurations
+                    if ctx.thorough() && (eng == "naive" || eng == "neonemu") && k + r > 6 && (b / 2) % 2 == 0 {
+                        continue;
+                    }
+                    cases.push(Kv::new().with("eng", eng).with("codec", codec).with("k", k).with("r", r).with("bytes", b).with("soil", soil).with("seed", seed));
+                }
+            }
+        }
+    }
+    rep.bound("sizes", J::s(format!("every even size 2..={smax}{}", if ctx.thorough() { " and 1022,1024,1026,4094" } else { "" })));
+    rep.bound("cfg", J::s(format!("[1..{kmax}]^2{} x codecs x all engines", if ctx.thorough() { " + (33,3) (3,33)" } else { "" })));
+    let results: Vec<Result<u64, (String, String)>> = par_for(cases.len(), 8, |i| match guard(|| run_case(&refm, &cases[i])) {
+        Ok(r) => r,
+        Err(p) => Err(("no panic".into(), format!("PANIC: {p}"))),
+    });
+    for (kv, res) in cases.iter().zip(results) {
+        rep.states += 1;
+        if kv.usize("bytes") % 64 != 0 {
+            rep.distinct += 1;
+        }
+        match res {
+            Ok(n) => {
+                rep.evaluations += n;
+                rep.traces += n;
+                rep.transitions += n;
+            }
+            Err((exp, obs)) => rep.violation(Violation {
+                key: format!("{}-{}-k{}r{}-b{}", kv.str("codec"), kv.str("eng"), kv.str("k"), kv.str("r"), kv.str("bytes")),
+                case: kv.dump(),
+                expected: exp,
+                observed: obs,
+            }),
+        }
+    }
+    for i in [0, cases.len() / 3, cases.len() / 2, cases.len() - 1] {
+        rep.sample(cases[i].dump());
+    }
+}
